@@ -234,6 +234,8 @@ def main():
     tier = sys.argv[1] if len(sys.argv) > 1 else "quick"
     run = Run(PID, tier)
     cache = FnCache()
+    from harness.lie import prelude as _prelude
+    _prelude(run, report=())
     handlers = {"exp_so3": c02.replay, "exp_se3_gen": c02.replay, "exp_se23_gen": c02.replay,
                 "log_so3": c03.replay, "log_se3": c03.replay, "log_se23": c03.replay,
                 "jac_so3": c05.replay, "jac_se3": c05.replay, "jac_se23": c05.replay,
